@@ -61,6 +61,9 @@ pub enum Step {
 pub struct RtProgram {
     pub n: usize,
     pub t_ns: u64,
+    /// nanoseconds per time unit of this program (0 or 1: the unit is the nanosecond)
+    #[serde(default)]
+    pub scale: u64,
     pub start_ns: u64,
     pub specs: Vec<Spec>,
     pub roots: Vec<Root>,
@@ -164,11 +167,30 @@ impl Application for App {
     type Lifecycle = Self;
 }
 
-fn st(ns: u64) -> SimTime {
-    SimTime::from_duration(Duration::from_nanos(ns))
+thread_local! {
+    /// nanoseconds per program time unit (1 for most programs; large values move the whole program beyond 2^64 ns)
+    static SCALE: std::cell::Cell<u128> = const { std::cell::Cell::new(1) };
 }
+pub const MAX_SCALE: u64 = 1_000_000_000_000;
+fn scale() -> u128 {
+    SCALE.with(|s| s.get())
+}
+fn dur(units: u64) -> Duration {
+    let total = u128::from(units) * scale();
+    Duration::new((total / 1_000_000_000) as u64, (total % 1_000_000_000) as u32)
+}
+fn st(units: u64) -> SimTime {
+    SimTime::from_duration(dur(units))
+}
+/// program time units of a simulation time; a time that is not a whole number of units cannot be one the program
+/// produced and maps to a value no program time equals
 fn ns_of(t: SimTime) -> u64 {
-    t.as_nanos() as u64
+    let n = t.as_nanos();
+    let s = scale();
+    if n % s != 0 || n / s > u128::from(u64::MAX >> 2) {
+        return (u64::MAX >> 1) + (n % 1_000_003) as u64;
+    }
+    (n / s) as u64
 }
 
 /// schedules instance `uid`; every call is expected to be accepted
@@ -176,7 +198,7 @@ fn schedule(rt: &mut Runtime<App>, uid: usize, time: u64, rel: bool) {
     let now = ns_of(SimTime::now());
     let r = std::panic::catch_unwind(std::panic::AssertUnwindSafe(|| {
         if rel && time >= now {
-            rt.add_event_in(Ev { uid }, Duration::from_nanos(time - now));
+            rt.add_event_in(Ev { uid }, dur(time - now));
         } else {
             rt.add_event(Ev { uid }, st(time));
         }
@@ -269,7 +291,7 @@ fn make_runtime(p: &RtProgram, with_limits: bool) -> Runtime<App> {
     let t = p.t_ns.max(1);
     let (insts, roots) = expand(p);
     let app = App { insts, specs: p.specs.clone(), roots, log: Log::default() };
-    let mut b = Builder::seeded(1).quiet().cqueue_options(p.n.max(1), Duration::from_nanos(t));
+    let mut b = Builder::seeded(1).quiet().cqueue_options(p.n.max(1), dur(t));
     let start = cap_delta(p.start_ns, t);
     if start > 0 {
         b = b.start_time(st(start));
@@ -413,6 +435,7 @@ fn run_plain(p: &RtProgram, with_limits: bool) -> RealRun {
 
 pub fn execute(p: &RtProgram, prop: &str) -> RunInfo {
     let mut info = RunInfo::default();
+    SCALE.with(|s| s.set(u128::from(p.scale.clamp(1, MAX_SCALE))));
     let t = p.t_ns.max(1);
     let start = cap_delta(p.start_ns, t);
     let (insts, roots) = expand(p);
@@ -428,7 +451,7 @@ pub fn execute(p: &RtProgram, prop: &str) -> RunInfo {
     // real uninterrupted, unlimited run
     let real = run_plain(p, false);
     info.events += real.handled.len() as u64;
-    info.sim_time_ns += u128::from(real.end_time);
+    info.sim_time_ns += u128::from(real.end_time) * scale();
     let mut th = TraceHash::default();
     for (i, (uid, time)) in real.handled.iter().enumerate() {
         // abstract: position within its tie group and whether it was a zero-delay insert
@@ -445,6 +468,9 @@ pub fn execute(p: &RtProgram, prop: &str) -> RunInfo {
     if start > 0 {
         info.probe("nonzero_start_time");
     }
+    if u128::from(real.end_time) * scale() > u128::from(u64::MAX) {
+        info.probe("run_beyond_2_pow_64_ns");
+    }
     info.probe_n("past_attempt", real.past_attempts.len() as u64);
     info.probe_n("past_root_attempt", roots.iter().filter(|r| insts[**r].past_root).count() as u64);
 
@@ -454,6 +480,11 @@ pub fn execute(p: &RtProgram, prop: &str) -> RunInfo {
         "C10" => check_c10(p, &insts, &roots, start, &model, &real, &mut info),
         "C11" => check_c11(p, &insts, &roots, start, &real, &mut info),
         _ => {}
+    }
+    if scale() > 1 {
+        for v in &mut info.violations {
+            v.msg.push_str(&format!(" [times of this program are given in units of {} ns]", scale()));
+        }
     }
     info
 }
@@ -1013,7 +1044,10 @@ pub fn generate(prop: &str, rng: &mut Rng, tier: Tier) -> RtProgram {
         Tier::Quick => 2 + rng.small(120) as u32,
         Tier::Thorough => 2 + rng.small(300) as u32,
     };
-    let mut prog = RtProgram { n, t_ns, start_ns, specs, roots, max_instances, limits: vec![], steps: vec![] };
+    // now and then the whole program is stretched: its time unit is not the nanosecond but up to 1000 s, which moves
+    // start time, timestamps and bucket width beyond 2^64 ns (584 simulated years) without changing the program
+    let scale = if rng.chance(1, 12) { *rng.pick(&[7u64, 1_000, 1_000_000, 1_000_000_007, 1_000_000_000_000, 1_000_000_000_000]) } else { 1 };
+    let mut prog = RtProgram { n, t_ns, scale, start_ns, specs, roots, max_instances, limits: vec![], steps: vec![] };
 
     if prop == "C11" {
         // limits are chosen knowing the timestamps of the program (static expansion)
